@@ -12,6 +12,7 @@ INVARIANT FParallelToGrad
 INVARIANT CurlIsDeltaStar
 INVARIANT B2IsSumOfSquares
 INVARIANT B2Positive
+INVARIANT CurlCodeIsDefinition
 INVARIANT SameKindSameResult
 INVARIANT MixedMlaRefused
 INVARIANT DispatchIndependentOfFunction
